@@ -78,6 +78,7 @@ def generate(rng, n, tier, stats):
             pool = sorted(set(v for v in a['flat']))
             vs = rng.sample(pool, min(len(pool), rng.randint(1, 2))) if pool else [0]
             as_list = len(vs) > 1 or rng.random() < 0.5
+            if rng.random() < 0.08: vs = []; as_list = True; stats['setna_empty_list']['yes'] += 1     # no value given: no cell changes
             cases.append({'ins': [a], 'ops': [['setna', vs, as_list]]})
         else:
             cases.append({'ins': [a], 'ops': [['setna_mask', [rng.random() < 0.4 for _ in a['flat']]]]})
